@@ -419,6 +419,40 @@ def check_pre(ctx, case, mo_lines):
         ctx.violation("steps-in-documented-order", rp, seam="hvsrpy.preprocess operation trace vs Model.Split.expectedTrace")
         return False
     ctx.traces += 1
+    # ---- what the caller's recording objects hold after the call (also after a REFUSED call): exactly the effect of the steps that ran on them -- samples and
+    # reported orientation must describe the same motion, whatever a later call is going to do with the object
+    from scipy.signal import butter, sosfiltfilt
+    fresh = build_records(case)
+    for rec_now, rec0, fs_r in zip(recs, fresh, case.get("fss") or [case["fs"]] * len(recs)):
+        ns, ew, vt = rec0.ns.amplitude.copy(), rec0.ew.amplitude.copy(), rec0.vt.amplitude.copy()
+        deg = rec0.degrees_from_north
+        for (op, oid, _n) in tr.rec:
+            if oid != id(rec_now):
+                continue
+            if op == "orient":
+                ang = np.radians(case["orient"] - deg)
+                c_, s_ = np.cos(ang), np.sin(ang)
+                ew, ns = ew * c_ - ns * s_, ew * s_ + ns * c_
+                deg = float(case["orient"] - 360 * (case["orient"] // 360))
+            elif op == "filter":
+                lo, hi = case["fc"]
+                if lo is not None or hi is not None:
+                    sos = butter(5, hi if lo is None else (lo if hi is None else [lo, hi]),
+                                 "lowpass" if lo is None else ("highpass" if hi is None else "bandpass"), fs=1 / (1 / fs_r), output="sos")
+                    ns, ew, vt = (sosfiltfilt(sos, a) for a in (ns, ew, vt))
+            elif op == "detrend" and case["detrend"] not in (None, "none"):
+                from scipy.signal import detrend as _detrend      # without a window length the recording itself is the (only) window and is detrended in place
+                ns, ew, vt = (_detrend(a, type=case["detrend"]) for a in (ns, ew, vt))
+        sc = max(1.0, float(np.max(np.abs(ns))), float(np.max(np.abs(ew))))
+        same = (len(rec_now.ns.amplitude) == len(ns) and np.allclose(rec_now.ns.amplitude, ns, rtol=0, atol=1e-9 * sc) and np.allclose(rec_now.ew.amplitude, ew, rtol=0, atol=1e-9 * sc)
+                and np.allclose(rec_now.vt.amplitude, vt, rtol=0, atol=1e-9 * sc) and abs(float(rec_now.degrees_from_north) - deg) <= 1e-9)
+        ctx.supporting["caller_state_after_preprocess"] = ctx.supporting.get("caller_state_after_preprocess", 0) + 1
+        if not same:
+            ctx.violation("steps-in-documented-order", dict(rp, why="after the call (outcome: %s) a recording object handed in does not hold the effect of the steps that ran on it: its samples and the "
+                                                               "orientation it reports no longer describe the same motion" % (err or "ok"),
+                                                           reported_orientation=float(rec_now.degrees_from_north), orientation_of_the_samples=deg),
+                          seam="caller's recording objects after hvsrpy.preprocess")
+            return False
     # object identities: orient/filter/split on the caller's recordings in order, detrend on the returned windows in order
     ids_in = [id(r) for r in recs]
     pos = 0
